@@ -565,6 +565,10 @@ impl<T: Clone, N, S: Storage<T, N>> Cluster<T, N, S> {
     }
 
     fn vote_received(&mut self, request: &Request<T>) -> Option<Vec<Request<T>>> {
+        if request.term != self.term {
+            return None;
+        }
+
         self.node_mut(request.target).voted = true;
 
         let votes = self.nodes.iter().filter(|node| node.voted).count() as u64;
